@@ -50,17 +50,17 @@ Elems == 1..c.a
 \* ---- the cases -----------------------------------------------------------
 \* k: the k-th call of next() panics (0: never).  l1, l2: what len() / the lower size hint say at the
 \* first and second time the constructor asks.  lo/up: first size_hint (up = 99 stands for None).
-Near(a) == {x \in 0..(MaxLen + 2) : x + 2 >= a /\ x <= a + 2}
+\* reported values within 2 of the actual length
+Near(a) == (IF a >= 2 THEN a - 2 ELSE 0)..(a + 2)
 Mk(ctor, a, k, l1, l2, lo, up, cap, f) ==
     [ctor |-> ctor, a |-> a, k |-> k, l1 |-> l1, l2 |-> l2, lo |-> lo, up |-> up, cap |-> cap, afail |-> f]
-\* every fault, for the small lengths: |reported - actual| <= 2, k = 1..calls+1
+On(ct, S) == IF ct \in Ctors THEN S ELSE {}
+\* every fault, for the small lengths: |reported - actual| <= 2, k = 1..calls+1 (0: no panic)
 FaultCases ==
-    {Mk("fhi", a, k, l, l, l, l, a, f) : a \in FaultLens, k \in 0..(MaxOf(FaultLens) + 3), l \in 0..(MaxOf(FaultLens) + 2), f \in BOOLEAN} \cup
-    {Mk("thin", a, k, l1, l2, l1, l1, a, FALSE) :
-        a \in FaultLens, k \in 0..(MaxOf(FaultLens) + 3), l1 \in 0..(MaxOf(FaultLens) + 2), l2 \in 0..(MaxOf(FaultLens) + 2)} \cup
-    {Mk("collect", a, k, lo, l2, lo, up, a, FALSE) :
-        a \in FaultLens, k \in 0..(MaxOf(FaultLens) + 3), lo \in 0..(MaxOf(FaultLens) + 2),
-        up \in (0..(MaxOf(FaultLens) + 2)) \cup {99}, l2 \in 0..(MaxOf(FaultLens) + 2)}
+    On("fhi", UNION {{Mk("fhi", a, k, l, l, l, l, a, f) : k \in 0..(a + 2), l \in Near(a), f \in BOOLEAN} : a \in FaultLens}) \cup
+    On("thin", UNION {{Mk("thin", a, k, l1, l2, l1, l1, a, FALSE) : k \in 0..(a + 2), l1 \in Near(a), l2 \in Near(a)} : a \in FaultLens}) \cup
+    On("collect", UNION {{Mk("collect", a, k, lo, l2, lo, up, a, FALSE) :
+                            k \in 0..(a + 2), lo \in Near(a) \cup {0}, up \in Near(a) \cup {99}, l2 \in Near(a)} : a \in FaultLens})
 \* honest inputs, for every length (well beyond any internal boundary)
 HonestCases ==
     {Mk(ct, a, 0, a, a, a, a, a, FALSE) : ct \in {"fhi", "thin", "slice", "str"}, a \in Lens} \cup
@@ -77,12 +77,9 @@ ReleaseCases == {Mk("release", 0, k, 0, 0, 0, 0, 0, FALSE) : k \in 1..NReleases}
 UnionDropCases == {Mk("union_drop", 0, k, 0, 0, 0, 0, 0, FALSE) : k \in 1..4}
 Cases == FaultCases \cup HonestCases \cup ObserverCases \cup ReleaseCases \cup UnionDropCases
 
-\* cases within the property's quantifier: |reported - actual| <= 2
+\* cases within the property's quantifier (the sets above are already restricted to |reported - actual| <= 2)
 InScope(x) ==
     /\ x.ctor \in Ctors
-    /\ x.l1 \in Near(x.a) /\ x.l2 \in Near(x.a) /\ x.lo \in Near(x.a) \cup {0}
-    /\ (x.up = 99 \/ x.up \in Near(x.a))
-    /\ (x.k <= x.a + 2 \/ x.ctor \in {"observe", "release", "union_drop"})
     /\ x.ctor = "collect" => x.lo <= x.up
 
 Init ==
